@@ -269,6 +269,7 @@ func main() {
 		o.Variants = v
 		hx.WriteFile(*out+"_V.v", v.Coq)
 		hx.WriteFile(*out+"_R.v", v.CoqRunner)
+		hx.WriteFile(*out+"_G.v", v.CoqGraph)
 		lap("variants done")
 	}
 	sort.Strings(o.Skipped)
